@@ -8,6 +8,8 @@ import functools
 import itertools
 import random
 
+import numpy as np
+
 from vf import desc as D, extract as X, gen as G
 
 PROP = "C06"
@@ -190,7 +192,15 @@ def query(net, rng):
         modes.reverse()
     for r in modes:
         try:
-            out = net.is_valid(raises=r)
+            # the switch as callers write it: the literal, a NumPy boolean (`np.all(flags)`), 1 / 0 from a config or command line
+            r_ = rng.choice((True, True, np.True_, 1) if r else (False, False, np.False_, 0, None))
+            if r_ is not True and r_ is not False:
+                D.FORM_STATS["is_valid: switch written as numpy bool / 0 / 1 / None"] = D.FORM_STATS.get("is_valid: switch written as numpy bool / 0 / 1 / None", 0) + 1
+            positional = rng.random() < 0.3
+        except Exception:
+            raise
+        try:
+            out = net.is_valid(r_) if positional else net.is_valid(raises=r_)
         except Exception:
             continue
         # the returned list of messages is the caller's: popping them while logging, clearing it or adding
